@@ -138,7 +138,11 @@ def r2(ctx: Ctx) -> None:
     ctx.ob("C12.R2", bc, "unsupported operator -> ValueError", brs[0] if brs else None, ok or not gets, "")
     pf = ctx.fn("filters.parse_filter_dict")
     pg = ctx.cfg(pf)
-    brs = [b for b in pg.nodes if b.kind == "branch" and norm_text(b.ast) == "condition is None"]
+    loopv = [l.ast.target.elts[1].id for l in pg.nodes if l.kind == "loop" and isinstance(l.ast, ast.For)
+             and isinstance(l.ast.target, ast.Tuple) and len(l.ast.target.elts) == 2 and isinstance(l.ast.target.elts[1], ast.Name)]
+    brs = [b for b in pg.nodes if b.kind == "branch" and isinstance(b.ast, ast.Compare) and isinstance(b.ast.ops[0], ast.Is)
+           and isinstance(b.ast.left, ast.Name) and b.ast.left.id in loopv
+           and isinstance(b.ast.comparators[0], ast.Constant) and b.ast.comparators[0].value is None]
     ok = False
     for b in brs:
         t = edge_target(pg, b, "true")
@@ -293,8 +297,15 @@ def r4(ctx: Ctx) -> None:
         # _scan_table passes compute_expr through the closure read_one
         if not sinks:
             sinks = [n for nf in f.nested.values() for n in ctx.cfg(nf).calls() if any(t.name in helpers for t in ctx.eff.callees(nf, n))]
+        cvars = set()
+        for sk in sinks:
+            for t in ctx.eff.callees(f if sk in g.calls() else next(nf for nf in f.nested.values() if sk in ctx.cfg(nf).calls()), sk):
+                if t.name in helpers:
+                    a = ctx.eff.bind_arg(sk.ast, t, "compute_expr", True)  # type: ignore[arg-type]
+                    if isinstance(a, ast.Name):
+                        cvars.add(a.id)
         defs = [n for n in g.nodes if n.kind == "stmt" and isinstance(n.ast, ast.Assign)
-                and any(isinstance(t, ast.Name) and t.id == "compute_expr" for t in n.ast.targets)]
+                and any(isinstance(t, ast.Name) and t.id in cvars for t in n.ast.targets)]
         ok = False
         for dnode in defs:
             org = sl.origins(dnode.ast.value, dnode.id)  # type: ignore[union-attr]
@@ -303,7 +314,7 @@ def r4(ctx: Ctx) -> None:
         ctx.ob("C12.R4", f, "compute_expr = to_pyarrow_compute_expression(parse_filter_dict(filter))", defs[0] if defs else None,
                ok and len(defs) == 1 and bool(sinks), "every API builds the predicate with the same two functions")
         for s in sinks:
-            passed = "compute_expr" in names_in(s.ast)
+            passed = bool(cvars & names_in(s.ast))
             ctx.ob("C12.R4", f, "the expression is handed to the reader helper", s, passed, "")
     # _read_datafile_table: with an expression every result is filtered
     rf = ctx.fn("transaction.Table._read_datafile_table")
@@ -343,10 +354,11 @@ def r4(ctx: Ctx) -> None:
             w = find_path(ig, s.id, [y.id], avoid=[x.id for x in ifilt], labels=NORMAL, edge_ok=lambda s_, d, l: (s_, d) not in inone_false)
         ctx.ob("C12.R4", it, "every yielded batch is filtered when an expression exists", y, bool(ifilt) and bool(starts) and w is None,
                "batch APIs apply the same expression", witness=ctx.path_witness(it, w))
-    rc = [n for n in ig.nodes if n.kind == "stmt" and isinstance(n.ast, ast.Assign) and any(isinstance(t, ast.Name) and t.id == "read_columns" for t in n.ast.targets)]
-    ok = bool(rc) and isinstance(rc[0].ast.value, ast.IfExp) and "compute_expr" in norm_text(rc[0].ast.value.test) and isinstance(rc[0].ast.value.body, ast.Constant)  # type: ignore[union-attr]
     ib = [n for n in ig.calls() if n.callee and n.callee.name.endswith("iter_batches")]
-    ok2 = all(norm_text(kwarg(n.ast, "columns")) == "read_columns" for n in ib) if ib else False
+    rcv = {norm_text(kwarg(n.ast, "columns")) for n in ib if kwarg(n.ast, "columns") is not None}
+    rc = [n for n in ig.nodes if n.kind == "stmt" and isinstance(n.ast, ast.Assign) and any(isinstance(t, ast.Name) and t.id in rcv for t in n.ast.targets)]
+    ok = bool(rc) and isinstance(rc[0].ast.value, ast.IfExp) and "compute_expr" in norm_text(rc[0].ast.value.test) and isinstance(rc[0].ast.value.body, ast.Constant)  # type: ignore[union-attr]
+    ok2 = bool(ib) and len(rcv) == 1
     ctx.ob("C12.R4", it, "when filtering, every column is read and projection happens after the filter", rc[0] if rc else None,
            ok and ok2, "read_columns = None if compute_expr is not None else columns")
 
